@@ -165,19 +165,25 @@ def _impl(tier, seed, search):
                 except Exception: continue
                 L.fail(f'class-wrong-length:{name}', f'{name}: a vector of length {k} (expected {spec[pos].n}) was not rejected', dict(callable=name, arg=pos, length=k), observed=repr(r)[:100])
     # ---- separate scalars == packed vector ------------------------------------------------------------------------
-    x, y, z = (float(v) for v in g.normal(size=3))
-    PAIRS = {
-        'transl': (lambda: b.transl(x, y, z), lambda: b.transl([x, y, z])), 'transl2': (lambda: b.transl2(x, y), lambda: b.transl2([x, y])),
-        'rpy2r': (lambda: b.rpy2r(x, y, z), lambda: b.rpy2r([x, y, z])), 'rpy2tr': (lambda: b.rpy2tr(x, y, z), lambda: b.rpy2tr([x, y, z])),
-        'rpy2r(xyz)': (lambda: b.rpy2r(x, y, z, order='xyz'), lambda: b.rpy2r([x, y, z], order='xyz')),
-        'eul2r': (lambda: b.eul2r(x, y, z), lambda: b.eul2r([x, y, z])), 'eul2tr': (lambda: b.eul2tr(x, y, z), lambda: b.eul2tr([x, y, z])),
-        'SE2': (lambda: SE2(x, y, z), lambda: SE2([x, y, z])), 'SE3': (lambda: SE3(x, y, z), lambda: SE3([x, y, z])),
-        'SE2(deg)': (lambda: SE2(x, y, 30 * z, unit='deg'), lambda: SE2([x, y, 30 * z], unit='deg')),
-    }
-    for name, (fa, fb) in PAIRS.items():
-        L.count('scalar-vs-packed', key=name); L.sample('scalar-vs-packed', dict(callable=name, values=[x, y, z]))
-        ra, rb = run(fa, []), run(fb, [])
-        if ra != rb: L.fail(f'scalar-vs-packed:{name}', f'{name}: separate-scalar and packed-vector call forms differ ({ra[0]}/{rb[0]})', dict(callable=name, values=[x, y, z]))
+    x0, y0, z0 = (float(v) for v in g.normal(size=3))
+    patterns = [(x0, y0, z0), (x0, 0.0, 0.0), (0.0, y0, 0.0), (0.0, 0.0, z0), (x0, y0, 0.0), (x0, 0.0, z0), (0.0, y0, z0), (0.0, 0.0, 0.0),
+                (1, 0, 0), (0, 2, 0), (3, 0, 1), (-2, 0.0, 0), (1.0, 1.0, 1.0)]
+    for (x, y, z) in patterns:
+        PAIRS = {
+            'transl': (lambda: b.transl(x, y, z), lambda: b.transl([x, y, z])), 'transl2': (lambda: b.transl2(x, y), lambda: b.transl2([x, y])),
+            'rpy2r': (lambda: b.rpy2r(x, y, z), lambda: b.rpy2r([x, y, z])), 'rpy2tr': (lambda: b.rpy2tr(x, y, z), lambda: b.rpy2tr([x, y, z])),
+            'rpy2r(xyz)': (lambda: b.rpy2r(x, y, z, order='xyz'), lambda: b.rpy2r([x, y, z], order='xyz')),
+            'eul2r': (lambda: b.eul2r(x, y, z), lambda: b.eul2r([x, y, z])), 'eul2tr': (lambda: b.eul2tr(x, y, z), lambda: b.eul2tr([x, y, z])),
+            'SE2': (lambda: SE2(x, y, z), lambda: SE2([x, y, z])), 'SE3': (lambda: SE3(x, y, z), lambda: SE3([x, y, z])),
+            'SE2(x,y)': (lambda: SE2(x, y), lambda: SE2([x, y])),
+            'SE2(deg)': (lambda: SE2(x, y, 30 * z, unit='deg'), lambda: SE2([x, y, 30 * z], unit='deg')),
+        }
+        zeros = ''.join('0' if v == 0 else 'n' for v in (x, y, z))
+        for name, (fa, fb) in PAIRS.items():
+            L.count('scalar-vs-packed', key=(name, zeros)); L.sample('scalar-vs-packed', dict(callable=name, values=[x, y, z]))
+            ra, rb = run(fa, []), run(fb, [])
+            if ra != rb: L.fail(f'scalar-vs-packed:{name}', f'{name}: separate-scalar and packed-vector call forms differ ({ra[0]}/{rb[0]}) for values {(x, y, z)}', dict(callable=name, values=[x, y, z]))
+    x, y, z = x0, y0, z0
     # ---- units -------------------------------------------------------------------------------------------------------
     a = float(g.uniform(-170, 170)); ar = a * math.pi / 180
     a3 = g.uniform(-80, 80, size=3); a3r = a3 * math.pi / 180
